@@ -211,4 +211,39 @@ theorem decode_encodeNat (hrp data : List Nat) (m : Option Nat) (mm : Nat) (hh :
     rw [v]
     rfl
 
+theorem decode_encodeNat_version (hrp : List Nat) (ver : Nat) (rest : List Nat) (hh : hrp ≠ [])
+    (hr : ∀ x ∈ hrp, 47 < x ∧ x < 123 ∧ ¬ (65 ≤ x ∧ x ≤ 90)) (hd : ∀ d ∈ ver :: rest, d < 32) :
+    ∃ s, encodeNat hrp (ver :: rest) none = .ok s ∧ decode s none = .ok (hrp, ver :: rest) := by
+  apply decode_encodeNat hrp (ver :: rest) none (if ver = 0 then 1 else 0x2bc830a3) hh hr hd rfl
+  split <;> decide
+
+/-- what `encode` writes: hrp, separator, alphabet characters of `data.length + 6` five-bit values. -/
+theorem encodeNat_shape (hrp data : List Nat) (m : Option Nat) (s : List Nat) (h : encodeNat hrp data m = .ok s) :
+    ∃ L : List Nat, s = hrp ++ [49] ++ L.map charOf ∧ (∀ d ∈ L, d < 32) ∧ L.length = data.length + 6 := by
+  unfold encodeNat at h
+  split at h
+  · cases h
+  · rename_i hall
+    split at h
+    · cases h
+    · rename_i mm hm
+      simp only at h
+      split at h
+      · cases h
+        refine ⟨data ++ createChecksum hrp data mm, rfl, ?_, by simp [createChecksum]⟩
+        intro d hd
+        rcases List.mem_append.mp hd with hd | hd
+        · have : data.all (· < 32) = true := by simpa using hall
+          simpa using List.all_eq_true.mp this d hd
+        · rw [createChecksum_eq] at hd; exact chk6_lt _ d hd
+      · cases h
+
+theorem encodeNat_lower (hrp data : List Nat) (m : Option Nat) (s : List Nat) (h : encodeNat hrp data m = .ok s)
+    (hu : ∀ x ∈ hrp, ¬ (65 ≤ x ∧ x ≤ 90)) : lower s = s := by
+  obtain ⟨L, rfl, hL, _⟩ := encodeNat_shape hrp data m s h
+  have : lower (hrp ++ [49] ++ L.map charOf) = lower hrp ++ [lowerC 49] ++ lower (L.map charOf) := by
+    simp [lower]
+  rw [this, lower_id_of hrp hu, lower_map_charOf L hL]
+  rfl
+
 end Btc.Bech32
